@@ -96,8 +96,18 @@ def addV (a b : E) : Except Err E :=
   | mat r c es, mat r' c' es' =>
       if r == r' && c == c' then .ok (mat r c ((es.zip es').map (fun p => add [p.1, p.2])))
       else .error .other             -- ShapeError
-  | mat _ _ _, _ => .error .typeError
-  | _, mat _ _ _ => .error .typeError
+  -- a 1x1 matrix and a scalar (1D: F -> [[F[0]]], grad(h) -> dx(h)): the scalar is wrapped into a
+  -- 1x1 matrix (evaluation.py, `Add` branch, after the `fix:` commit); other shapes: TypeError
+  | mat r c es, s =>
+      (match s with
+       | tup _ => .error .typeError
+       | _ => if r == 1 && c == 1 then .ok (mat 1 1 ((es.zip [s]).map (fun p => add [p.1, p.2])))
+              else .error .typeError)
+  | s, mat r c es =>
+      (match s with
+       | tup _ => .error .typeError
+       | _ => if r == 1 && c == 1 then .ok (mat 1 1 (([s].zip es).map (fun p => add [p.1, p.2])))
+              else .error .typeError)
   | tup _, _ => .error .other
   | _, tup _ => .error .other
   | a, b => .ok (add [a, b])
@@ -145,7 +155,7 @@ def lower (d : Nat) (lg : Bool) : E → Except Err E
       let b' ← lower d lg b
       let e' ← lower d lg e
       if isMat b' || isMat e' then .error .other else .ok (pow b' e')
-  | fn "Abs" a => do .ok (fn "Abs" (← lower d lg a))
+  | fn f a => do .ok (fn f (← lower d lg a))   -- elementary functions lower their argument (`fix:` commit)
   | sf s k => .ok (sf s k)
   | vf s k => .ok (mat d 1 ((List.range d).map (fun i => idx (vf s k) i)))
   | op1 .minus a => do .ok (op1 .minus (← lower d lg a))
